@@ -197,3 +197,20 @@ PROPS["C20"] = {
                 "thorough": {"tcp_segments_on_wire": 20000000}},
     "assumptions": _TCP_ASSUME[:2],
 }
+
+PROPS["C13"] = {
+    "level": "exploration",
+    "claim": {
+        "technique": "runtime monitoring: ground-truth endpoint views (UDP sender endpoint, accepted socket's remote endpoint at accept time and later, accept's peer endpoint) plus a metamorphic oracle: the same scenario re-run without the NAT hops must produce the same completion times, payloads, order and sender-side views",
+        "text": "NAT hops are placed on client nodes, on both sides and with several nodes behind one external address; TCP pairs are identified by tokens, UDP datagrams by unique content. Receiver-side views must show NAT external address + original port, everything else must equal the NAT-free run of the identical scenario.",
+        "note": "The metamorphic comparison relies on the NAT hop adding no delay (it forwards synchronously); views are sampled at completion and again at the end because the pinned tree changed them after the handshake.",
+        "ref": "DESIGN.md 3/C13",
+    },
+    "rule": "TCP cases = conn-engine scenarios biased to NAT (3/4 of client nodes natted, server side natted in half of the cases); UDP cases = udp-engine scenarios with natted senders. "
+            "Non-trivial = a pair was established / a datagram delivered; distinct = distinct scenario descriptors. Each case with a NAT is executed twice (with and without the hops).",
+    "jobs": [{"name": "tcp", "engine": "conn", "args": {"n": T(2500, 120000)}},
+             {"name": "udp", "engine": "udp", "args": {"n": T(1500, 60000)}}],
+    "require": {"quick": {"pairs_with_natted_connector": 3000, "metamorphic_pairs_compared": 2500, "datagrams_delivered_through_nat": 5000},
+                "thorough": {"pairs_with_natted_connector": 100000}},
+    "assumptions": ["NAT hops are the library's sim::nat placed as last hop of a node's outgoing route"],
+}
